@@ -7,7 +7,7 @@ open Cspuz Cspuz.Spec
 /-! ### Arithmetic -/
 
 /-- `j < ⌈a / m⌉ ↔ m * j < a`. -/
-theorem lt_ceil_iff (a m : Int) (hm : 0 < m) (j : Nat) (ha : 0 < a) :
+theorem lt_ceil_iff (a m : Int) (hm : 0 < m) (j : Nat) :
     j < ((a + m - 1) / m).toNat ↔ m * (j : Int) < a := by
   have h1 : ((j : Int) + 1 ≤ (a + m - 1) / m) ↔ ((j : Int) + 1) * m ≤ a + m - 1 :=
     Int.le_ediv_iff_mul_le hm
@@ -41,5 +41,414 @@ theorem filter_eq_map_range (r : Nat → Nat → Prop) [Std.Antisymm r] [Std.Irr
     constructor
     · rintro ⟨j, hj, rfl⟩; exact ⟨j, List.mem_range.mpr hj, rfl⟩
     · rintro ⟨j, hj, rfl⟩; exact ⟨j, List.mem_range.mp hj, rfl⟩
+
+
+/-- Ascending selection (positive step). -/
+theorem asc_sel (n : Nat) (lo hi st : Int) (hst : 0 < st) (hlo : 0 ≤ lo) (hhi : hi ≤ n) :
+    (List.range n).filter (fun (i : Nat) => decide (lo ≤ (i : Int) ∧ (i : Int) < hi ∧ ((i : Int) - lo) % st = 0))
+      = (List.range (if lo ≥ hi then 0 else (hi - lo + st - 1) / st).toNat).map
+          (fun (j : Nat) => (lo + st * (j : Int)).toNat) := by
+  apply filter_eq_map_range (· < ·) _ List.pairwise_lt_range
+  · intro j k hjk _
+    have : st * (j : Int) < st * (k : Int) := Int.mul_lt_mul_of_pos_left (by omega) hst
+    have : 0 ≤ st * (j : Int) := Int.mul_nonneg (by omega) (by omega)
+    show (lo + st * (j : Int)).toNat < (lo + st * (k : Int)).toNat
+    omega
+  · intro x
+    simp only [List.mem_range, decide_eq_true_eq]
+    constructor
+    · rintro ⟨hx, h1, h2, h3⟩
+      have hq : st * (((x : Int) - lo) / st) = (x : Int) - lo :=
+        Int.mul_ediv_cancel' (Int.dvd_of_emod_eq_zero h3)
+      have hq0 : 0 ≤ ((x : Int) - lo) / st := Int.ediv_nonneg (by omega) (by omega)
+      refine ⟨(((x : Int) - lo) / st).toNat, ?_, ?_⟩
+      · rw [if_neg (by omega), lt_ceil_iff _ _ hst, Int.toNat_of_nonneg hq0, hq]; omega
+      · rw [Int.toNat_of_nonneg hq0, hq]; omega
+    · rintro ⟨j, hj, rfl⟩
+      have hlt : lo < hi := by
+        by_cases h : lo ≥ hi
+        · rw [if_pos h] at hj; simp at hj
+        · omega
+      rw [if_neg (by omega), lt_ceil_iff _ _ hst] at hj
+      have h0 : 0 ≤ st * (j : Int) := Int.mul_nonneg (by omega) (by omega)
+      have e : ((lo + st * (j : Int)).toNat : Int) = lo + st * (j : Int) :=
+        Int.toNat_of_nonneg (by omega)
+      rw [e]
+      refine ⟨by omega, by omega, by omega, ?_⟩
+      have : lo + st * (j : Int) - lo = st * (j : Int) := by omega
+      rw [this, Int.mul_emod_right]
+
+
+theorem lt_ceil_iff_neg (a st : Int) (hst : st < 0) (j : Nat) :
+    j < ((a - st - 1) / (-st)).toNat ↔ -(st * (j : Int)) < a := by
+  have h := lt_ceil_iff a (-st) (by omega) j
+  rw [Int.neg_mul] at h
+  have e : a + -st - 1 = a - st - 1 := by omega
+  rw [e] at h
+  exact h
+
+/-- Descending selection (negative step). -/
+theorem desc_sel (n : Nat) (s e st : Int) (hst : st < 0) (hs : s < n) (he : -1 ≤ e) :
+    (List.range n).reverse.filter
+        (fun (i : Nat) => decide (e < (i : Int) ∧ (i : Int) ≤ s ∧ (s - (i : Int)) % (-st) = 0))
+      = (List.range (if s ≤ e then 0 else (s - e - st - 1) / (-st)).toNat).map
+          (fun (j : Nat) => (s + st * (j : Int)).toNat) := by
+  apply filter_eq_map_range (· > ·) _ (List.pairwise_reverse.mpr List.pairwise_lt_range)
+  · intro j k hjk hk
+    have hlt : ¬ s ≤ e := by
+      intro h; rw [if_pos h] at hk; simp at hk
+    rw [if_neg hlt, lt_ceil_iff_neg _ _ hst] at hk
+    have : (-st) * (j : Int) < (-st) * (k : Int) := Int.mul_lt_mul_of_pos_left (by omega) (by omega)
+    rw [Int.neg_mul, Int.neg_mul] at this
+    show (s + st * (j : Int)).toNat > (s + st * (k : Int)).toNat
+    omega
+  · intro x
+    simp only [List.mem_reverse, List.mem_range, decide_eq_true_eq]
+    constructor
+    · rintro ⟨hx, h1, h2, h3⟩
+      have hq : (-st) * ((s - (x : Int)) / (-st)) = s - (x : Int) :=
+        Int.mul_ediv_cancel' (Int.dvd_of_emod_eq_zero h3)
+      rw [Int.neg_mul] at hq
+      have hq0 : 0 ≤ (s - (x : Int)) / (-st) := Int.ediv_nonneg (by omega) (by omega)
+      refine ⟨((s - (x : Int)) / (-st)).toNat, ?_, ?_⟩
+      · rw [if_neg (by omega), lt_ceil_iff_neg _ _ hst, Int.toNat_of_nonneg hq0, hq]; omega
+      · rw [Int.toNat_of_nonneg hq0]; omega
+    · rintro ⟨j, hj, rfl⟩
+      have hlt : ¬ s ≤ e := by
+        intro h; rw [if_pos h] at hj; simp at hj
+      rw [if_neg hlt, lt_ceil_iff_neg _ _ hst] at hj
+      have h0 : 0 ≤ (-st) * (j : Int) := Int.mul_nonneg (by omega) (by omega)
+      rw [Int.neg_mul] at h0
+      have e : ((s + st * (j : Int)).toNat : Int) = s + st * (j : Int) :=
+        Int.toNat_of_nonneg (by omega)
+      rw [e]
+      refine ⟨by omega, by omega, by omega, ?_⟩
+      have : s - (s + st * (j : Int)) = (-st) * (j : Int) := by rw [Int.neg_mul]; omega
+      rw [this, Int.mul_emod_right]
+
+
+/-! ### One axis: `parseRange`/`rangeSize` against `axisSel` -/
+
+theorem sliceIndices_eq (n : Nat) (a b c : Option Int) :
+    sliceIndices n a b c =
+      if c.getD 1 = 0 then .error .valueError
+      else if c.getD 1 > 0 then .ok (clampPos n 0 a, clampPos n n b, c.getD 1)
+      else .ok (clampNeg n (n - 1) a, clampNeg n (-1) b, c.getD 1) := by
+  unfold sliceIndices clampPos clampNeg
+  cases a <;> cases b <;> grind
+
+theorem clampPos_bounds (n : Nat) (d : Int) (hd : 0 ≤ d ∧ d ≤ n) (a : Option Int) :
+    0 ≤ clampPos n d a ∧ clampPos n d a ≤ n := by
+  unfold clampPos
+  cases a <;> grind
+
+theorem clampNeg_bounds (n : Nat) (d : Int) (hd : -1 ≤ d ∧ d < n) (a : Option Int) :
+    -1 ≤ clampNeg n d a ∧ clampNeg n d a < n := by
+  unfold clampNeg
+  cases a <;> grind
+
+theorem rangeSize_pos (s e st : Int) (hst : 0 < st) :
+    rangeSize s e st = .ok (if s ≥ e then 0 else (e - s + st - 1) / st) := by
+  unfold rangeSize pyDiv
+  rw [if_neg (by omega), if_pos (by omega), Int.fdiv_eq_ediv_of_nonneg _ (by omega)]
+  split <;> rfl
+
+theorem rangeSize_neg (s e st : Int) (hst : st < 0) :
+    rangeSize s e st = .ok (if s ≤ e then 0 else (s - e - st - 1) / (-st)) := by
+  unfold rangeSize pyDiv
+  rw [if_neg (by omega), if_neg (by omega), Int.fdiv_eq_ediv_of_nonneg _ (by omega)]
+  split <;> rfl
+
+/-- What a successful `parseRange` means on the spec side. -/
+def AxisOK (n : Nat) (k : AxisKey) (f : Bool) (s st : Int) (sz : Int) : Prop :=
+  0 ≤ sz ∧
+  axisSel n k = .ok (f, (List.range sz.toNat).map (fun (j : Nat) => (s + st * (j : Int)).toNat)) ∧
+  (∀ j : Nat, j < sz.toNat → 0 ≤ s + st * (j : Int) ∧ s + st * (j : Int) < n) ∧
+  (f = true → sz = 1)
+
+theorem axis_ok (n : Nat) (k : AxisKey) (f : Bool) (s e st : Int)
+    (h : parseRange n k = .ok (f, s, e, st)) :
+    ∃ sz, rangeSize s e st = .ok sz ∧ AxisOK n k f s st sz := by
+  cases k with
+  | idx k =>
+    unfold AxisOK
+    simp only [parseRange, axisSel] at h ⊢
+    generalize (if k < 0 then k + (n : Int) else k) = p at h ⊢
+    by_cases hp : 0 ≤ p ∧ p < (n : Int)
+    · rw [if_pos hp] at h ⊢
+      injection h with h
+      simp only [Prod.mk.injEq] at h
+      obtain ⟨rfl, rfl, rfl, rfl⟩ := h
+      refine ⟨1, ?_, by omega, ?_, ?_, fun _ => rfl⟩
+      · rw [rangeSize_pos _ _ _ (by omega), if_neg (by omega)]
+        congr 1; omega
+      · simp
+      · intro j hj
+        have : j = 0 := by omega
+        subst this
+        omega
+    · rw [if_neg hp] at h; cases h
+  | slice a b c =>
+    simp only [parseRange, sliceIndices_eq] at h
+    by_cases h0 : c.getD 1 = 0
+    · rw [if_pos h0] at h; cases h
+    rw [if_neg h0] at h
+    by_cases hp : c.getD 1 > 0
+    · rw [if_pos hp] at h
+      injection h with h
+      simp only [Prod.mk.injEq] at h
+      obtain ⟨rfl, rfl, rfl, rfl⟩ := h
+      have b1 := clampPos_bounds n 0 (by omega) a
+      have b2 := clampPos_bounds n n (by omega) b
+      refine ⟨_, rangeSize_pos _ _ _ hp, ?_, ?_, ?_, fun h => by cases h⟩
+      · split
+        · omega
+        · exact Int.ediv_nonneg (by omega) (by omega)
+      · simp only [axisSel, sliceSel, if_neg h0, if_pos hp]
+        rw [asc_sel n _ _ _ hp b1.1 b2.2]
+        rfl
+      · intro j hj
+        have hlt : ¬ clampPos n 0 a ≥ clampPos n n b := by
+          intro h; rw [if_pos h] at hj; simp at hj
+        rw [if_neg hlt, lt_ceil_iff _ _ hp] at hj
+        have h0 : 0 ≤ c.getD 1 * (j : Int) := Int.mul_nonneg (by omega) (by omega)
+        omega
+    · rw [if_neg hp] at h
+      have hn : c.getD 1 < 0 := by omega
+      injection h with h
+      simp only [Prod.mk.injEq] at h
+      obtain ⟨rfl, rfl, rfl, rfl⟩ := h
+      have b1 := clampNeg_bounds n (n - 1) (by omega) a
+      have b2 := clampNeg_bounds n (-1) (by omega) b
+      refine ⟨_, rangeSize_neg _ _ _ hn, ?_, ?_, ?_, fun h => by cases h⟩
+      · split
+        · omega
+        · exact Int.ediv_nonneg (by omega) (by omega)
+      · simp only [axisSel, sliceSel, if_neg h0, if_neg hp]
+        rw [desc_sel n _ _ _ hn b1.2 b2.1]
+        rfl
+      · intro j hj
+        have hlt : ¬ clampNeg n (n - 1) a ≤ clampNeg n (-1) b := by
+          intro h; rw [if_pos h] at hj; simp at hj
+        rw [if_neg hlt, lt_ceil_iff_neg _ _ hn] at hj
+        have h0 : 0 ≤ (-(c.getD 1)) * (j : Int) := Int.mul_nonneg (by omega) (by omega)
+        rw [Int.neg_mul] at h0
+        omega
+
+theorem axis_err (n : Nat) (k : AxisKey) (err : PyErr)
+    (h : parseRange n k = .error err) : axisSel n k = .error err := by
+  cases k with
+  | idx k =>
+    simp only [parseRange, axisSel] at h ⊢
+    generalize (if k < 0 then k + (n : Int) else k) = p at h ⊢
+    by_cases hp : 0 ≤ p ∧ p < (n : Int)
+    · rw [if_pos hp] at h; cases h
+    · rw [if_neg hp] at h ⊢; cases h; rfl
+  | slice a b c =>
+    simp only [parseRange, sliceIndices_eq] at h
+    simp only [axisSel, sliceSel]
+    by_cases h0 : c.getD 1 = 0
+    · rw [if_pos h0] at h ⊢; cases h; rfl
+    · rw [if_neg h0] at h
+      split at h <;> cases h
+
+
+/-! ### `toRows` -/
+
+theorem toRows_length {α} (data : List α) (h w : Nat) : (toRows data h w).length = h := by
+  induction h generalizing data with
+  | zero => rfl
+  | succ h ih => simp only [toRows, List.length_cons, ih]
+
+theorem toRows_flatten {α} (data : List α) (h w : Nat) (hl : data.length = h * w) :
+    (toRows data h w).flatten = data := by
+  induction h generalizing data with
+  | zero =>
+    rw [Nat.zero_mul] at hl
+    rw [List.eq_nil_of_length_eq_zero hl]; rfl
+  | succ h ih =>
+    rw [Nat.add_mul, Nat.one_mul] at hl
+    simp only [toRows, List.flatten_cons]
+    rw [ih (data.drop w) (by rw [List.length_drop]; omega), List.take_append_drop]
+
+theorem toRows_row_length {α} (data : List α) (h w : Nat) (hl : data.length = h * w) :
+    ∀ r ∈ toRows data h w, r.length = w := by
+  induction h generalizing data with
+  | zero => intro r hr; simp [toRows] at hr
+  | succ h ih =>
+    rw [Nat.add_mul, Nat.one_mul] at hl
+    intro r hr
+    simp only [toRows, List.mem_cons] at hr
+    rcases hr with rfl | hr
+    · rw [List.length_take]; omega
+    · exact ih (data.drop w) (by rw [List.length_drop]; omega) r hr
+
+theorem toRows_getElem? {α} (data : List α) (h w y : Nat) (hy : y < h) :
+    (toRows data h w)[y]? = some ((data.drop (y * w)).take w) := by
+  induction h generalizing data y with
+  | zero => omega
+  | succ h ih =>
+    cases y with
+    | zero => simp [toRows]
+    | succ y =>
+      simp only [toRows, List.getElem?_cons_succ]
+      rw [ih (data.drop w) y (by omega), List.drop_drop, Nat.add_mul, Nat.one_mul]
+      congr 3; omega
+
+theorem mul_add_lt {h w y x : Nat} (hy : y < h) (hx : x < w) : y * w + x < h * w := by
+  have : (y + 1) * w ≤ h * w := Nat.mul_le_mul_right w hy
+  rw [Nat.add_mul, Nat.one_mul] at this
+  omega
+
+theorem pyIndex_natCast {α} (l : List α) (k : Nat) (hk : k < l.length) :
+    pyIndex l (k : Int) =
+      match l[k]? with
+      | some x => .ok x
+      | none => .error .indexError := by
+  simp only [pyIndex]
+  rw [if_neg (show ¬ ((k : Int) < 0) by omega), if_pos (by omega), Int.toNat_natCast]
+  rfl
+
+theorem pick_toRows {α} (data : List α) (h w y x : Nat) (hl : data.length = h * w)
+    (hy : y < h) (hx : x < w) :
+    pick (toRows data h w) y x = pyIndex data ((y : Int) * (w : Int) + (x : Int)) := by
+  have hlt := mul_add_lt hy hx
+  have hc : (y : Int) * (w : Int) + (x : Int) = ((y * w + x : Nat) : Int) := by
+    simp only [Int.natCast_add, Int.natCast_mul]
+  rw [hc, pyIndex_natCast data _ (by omega)]
+  unfold pick
+  rw [toRows_getElem? data h w y hy]
+  simp only []
+  rw [List.getElem?_take_of_lt hx, List.getElem?_drop]
+  rfl
+
+/-! ### The gather loop -/
+
+theorem range_mul (a b : Nat) :
+    List.range (a * b) = (List.range a).flatMap fun i => (List.range b).map fun j => i * b + j := by
+  induction a with
+  | zero => simp
+  | succ a ih =>
+    rw [Nat.add_mul, Nat.one_mul, List.range_add, ih, List.range_succ, List.flatMap_append]
+    simp
+
+theorem mapM_map_congr {ι β γ δ : Type} (L : List ι) (φ : ι → β) (ψ : ι → γ)
+    (g : β → Py δ) (g' : γ → Py δ) (hc : ∀ j ∈ L, g (φ j) = g' (ψ j)) :
+    (L.map φ).mapM g = (L.map ψ).mapM g' := by
+  induction L with
+  | nil => rfl
+  | cons a L ih =>
+    simp only [List.map_cons, List.mapM_cons]
+    rw [hc a (List.mem_cons_self), ih (fun j hj => hc j (List.mem_cons_of_mem _ hj))]
+
+theorem mapM_flatMap_map_congr {ι κ β γ δ : Type} (LA : List ι) (LB : List κ)
+    (φ : ι → κ → β) (ψ : ι → κ → γ) (g : β → Py δ) (g' : γ → Py δ)
+    (hc : ∀ i ∈ LA, ∀ j ∈ LB, g (φ i j) = g' (ψ i j)) :
+    (LA.flatMap fun i => LB.map (φ i)).mapM g = (LA.flatMap fun i => LB.map (ψ i)).mapM g' := by
+  induction LA with
+  | nil => rfl
+  | cons a LA ih =>
+    simp only [List.flatMap_cons, List.mapM_append]
+    rw [mapM_map_congr LB (φ a) (ψ a) g g' (hc a (List.mem_cons_self)),
+      ih (fun i hi => hc i (List.mem_cons_of_mem _ hi))]
+
+theorem gather_eq {α : Type} (data : List α) (h w : Nat) (hl : data.length = h * w)
+    (ys yst xs xst : Int) (A B : Nat)
+    (hy : ∀ i : Nat, i < A → 0 ≤ ys + yst * (i : Int) ∧ ys + yst * (i : Int) < h)
+    (hx : ∀ j : Nat, j < B → 0 ≤ xs + xst * (j : Int) ∧ xs + xst * (j : Int) < w) :
+    gather data w ys yst xs xst A B =
+      (((List.range A).map (fun (i : Nat) => (ys + yst * (i : Int)).toNat)).flatMap fun y =>
+        ((List.range B).map (fun (j : Nat) => (xs + xst * (j : Int)).toNat)).map fun x => (y, x)).mapM
+        fun (p : Nat × Nat) => pick (toRows data h w) p.1 p.2 := by
+  unfold gather
+  rw [← Int.natCast_mul, Int.toNat_natCast, range_mul, List.flatMap_map]
+  simp only [List.map_map]
+  apply mapM_flatMap_map_congr
+  intro i hi j hj
+  rw [List.mem_range] at hi hj
+  obtain ⟨hy0, hy1⟩ := hy i hi
+  obtain ⟨hx0, hx1⟩ := hx j hj
+  have hd : (i * B + j) / B = i := by
+    rw [Nat.add_comm, Nat.add_mul_div_right _ _ (by omega), Nat.div_eq_of_lt hj, Nat.zero_add]
+  have hm : (i * B + j) % B = j := by
+    rw [Nat.add_comm, Nat.add_mul_mod_self_right, Nat.mod_eq_of_lt hj]
+  simp only [Function.comp, pyDiv, pyMod, Int.ofNat_eq_natCast]
+  rw [Int.fdiv_eq_ediv_of_nonneg _ (by omega), Int.fmod_eq_emod_of_nonneg _ (by omega),
+    ← Int.natCast_ediv, ← Int.natCast_emod, hd, hm,
+    pick_toRows data h w _ _ hl (by omega) (by omega),
+    Int.toNat_of_nonneg hy0, Int.toNat_of_nonneg hx0]
+
+/-! ### Assembly -/
+
+theorem getitemPair_eq {α : Type} (data : List α) (h w : Nat) (hl : data.length = h * w)
+    (ky kx : AxisKey) :
+    getitemPair data h w ky kx = specPair (toRows data h w) h w ky kx := by
+  unfold getitemPair specPair
+  cases hpy : parseRange h ky with
+  | error e => rw [axis_err _ _ _ hpy]; rfl
+  | ok r =>
+    obtain ⟨yf, ys, ye, yst⟩ := r
+    obtain ⟨ysz, hrsy, hysz0, hay, hby, hfy⟩ := axis_ok _ _ _ _ _ _ hpy
+    rw [hay]
+    cases hpx : parseRange w kx with
+    | error e => rw [axis_err _ _ _ hpx]; rfl
+    | ok r =>
+      obtain ⟨xf, xs, xe, xst⟩ := r
+      obtain ⟨xsz, hrsx, hxsz0, hax, hbx, hfx⟩ := axis_ok _ _ _ _ _ _ hpx
+      rw [hax]
+      obtain ⟨A, rfl⟩ := Int.eq_ofNat_of_zero_le hysz0
+      obtain ⟨B, rfl⟩ := Int.eq_ofNat_of_zero_le hxsz0
+      simp only [Int.toNat_natCast] at hby hbx ⊢
+      have hg := gather_eq data h w hl ys yst xs xst A B hby hbx
+      simp only [bind, Except.bind, hrsy, hrsx]
+      by_cases hf : yf = true ∧ xf = true
+      · have hA : A = 1 := by have := hfy hf.1; omega
+        have hB : B = 1 := by have := hfx hf.2; omega
+        subst hA hB
+        have e0 := hby 0 (by omega)
+        have e1 := hbx 0 (by omega)
+        simp only [Int.natCast_zero, Int.mul_zero, Int.add_zero] at e0 e1
+        simp only [if_pos hf, List.range_one, List.map_cons, List.map_nil, List.flatMap_cons,
+          List.flatMap_nil, List.append_nil, List.mapM_cons, List.mapM_nil, Int.natCast_zero,
+          Int.mul_zero, Int.add_zero]
+        rw [pick_toRows data h w _ _ hl (by omega) (by omega), Int.toNat_of_nonneg e0.1,
+          Int.toNat_of_nonneg e1.1]
+        cases pyIndex data (ys * (w : Int) + xs) <;> rfl
+      · simp only [if_neg hf, ← hg, List.length_map, List.length_range, Int.toNat_natCast]
+
+theorem getitem2D_eq_spec : ∀ (α : Type) (data : List α) (h w : Nat) (key : Key2),
+    data.length = h * w → getitem2D data h w key = specGetitem (toRows data h w) h w key := by
+  intro α data h w key hl
+  cases key with
+  | one k => exact getitemPair_eq data h w hl k _
+  | pair ky kx => exact getitemPair_eq data h w hl ky kx
+  | coords l =>
+    simp only [getitem2D, specGetitem]
+    congr 2
+    funext ⟨y, x⟩
+    simp only [getitemPair_eq data h w hl, specPair, axisSel]
+    generalize (if y < 0 then y + (h : Int) else y) = py
+    generalize (if x < 0 then x + (w : Int) else x) = px
+    by_cases hy : 0 ≤ py ∧ py < (h : Int)
+    · by_cases hx : 0 ≤ px ∧ px < (w : Int)
+      · simp only [if_pos hy, if_pos hx, bind, Except.bind]
+        simp only [List.map_cons, List.map_nil, List.flatMap_cons, List.flatMap_nil,
+          List.append_nil, List.mapM_cons, List.mapM_nil, bind, Except.bind, pure, Except.pure]
+        cases pick (toRows data h w) py.toNat px.toNat <;> simp
+      · simp only [if_pos hy, if_neg hx, bind, Except.bind]
+    · simp only [if_neg hy, bind, Except.bind]
+
+theorem reshape_spec : ∀ (α : Type) (data : List α) (h w : Nat),
+    (data.length = h * w → reshape data h w = .ok (.arr2 h w data) ∧
+        (toRows data h w).flatten = data ∧ (toRows data h w).length = h ∧
+        ∀ r ∈ toRows data h w, r.length = w) ∧
+    (data.length ≠ h * w → reshape data h w = .error .valueError) := by
+  intro α data h w
+  constructor
+  · intro hl
+    refine ⟨?_, toRows_flatten data h w hl, toRows_length data h w, toRows_row_length data h w hl⟩
+    unfold reshape; rw [if_neg (by simpa using hl)]
+  · intro hl
+    unfold reshape; rw [if_pos hl]
 
 end Cspuz.Proofs.C13
